@@ -642,21 +642,16 @@ func c01rr(p *Prog, r *Report) {
 					outer[l.head] = true
 				}
 			}
-			seen := map[*ssa.BasicBlock]bool{}
-			stack := append([]*ssa.BasicBlock{}, a.Block().Succs...)
-			for len(stack) > 0 {
-				x := stack[len(stack)-1]
-				stack = stack[:len(stack)-1]
-				if seen[x] || outer[x] {
-					continue
+			forwardFrom(a.Block(), func(x *ssa.BasicBlock) bool {
+				if !ok || outer[x] {
+					return false
 				}
-				seen[x] = true
 				if x == rl.head {
 					ok = false
-					break
+					return false
 				}
-				stack = append(stack, x.Succs...)
-			}
+				return true
+			})
 		}
 		r.Check(ok, rule, "DecideRoundReceived:first-round-only", p.ipos(a), fnName(fn), "the search stops at the first round that receives the event", "after receiving the event the loop over rounds continues: a later round could overwrite the round-received")
 	}
